@@ -76,6 +76,7 @@ def run_spec(spec, rep, timeout_s, baseline, findings):
         rep.bounds.append("%s: %s" % (spec.name, spec.bound))
     work = []
     meta = []
+    total_normal = 0
     for ci, case in enumerate(spec.cases()):
         try:
             results = H.explore(spec, case)
@@ -103,9 +104,9 @@ def run_spec(spec, rep, timeout_s, baseline, findings):
             for ob in r.obligations:
                 work.append((ob, r.inputs, spec.timeout_s or timeout_s))
                 meta.append((spec, case, ci, pi, ob, r))
-        if normal == 0 and not getattr(spec, "no_normal_path_ok", False):
-            rep.undecided.append({"spec": spec.name, "case": H.jsonable(case),
-                                  "why": "vacuity guard: no path returns normally under requires"})
+        total_normal += normal
+    if total_normal == 0 and not getattr(spec, "no_normal_path_ok", False) and not rep.undecided and not hasattr(spec, "_shard"):
+        rep.undecided.append({"spec": spec.name, "why": "vacuity guard: no path of any case returns normally under requires"})
     if not work and not rep.undecided:
         rep.undecided.append({"spec": spec.name, "why": "vacuity guard: zero obligations generated"})
     if any(u.get("spec") == spec.name for u in rep.undecided):
